@@ -37,7 +37,7 @@ def plan(tier, seed):
     for i in range(NSH):
         jobs.append({"name": "sweep%02d" % i, "spec": {"kind": "sweep", "res": i}})
     jobs.append({"name": "config", "spec": {"kind": "config"}})
-    jobs.append({"name": "unparsable", "spec": {"kind": "unparsable", "n": 20000 if tier == "quick" else 400000}})
+    jobs.append({"name": "unparsable", "spec": {"kind": "unparsable", "n": 20000 if tier == "quick" else 2000000}})
     jobs.append({"name": "ambiguous", "spec": {"kind": "ambiguous"}})
     return jobs
 
@@ -185,7 +185,7 @@ def run_shard(spec, ctx):
                         ctx.bin("name_with_version_suffix")
             ctx.bin("sweep_version")
         # random full-range ids
-        for _ in range(2000 if ctx.tier == "quick" else 60000):
+        for _ in range(2000 if ctx.tier == "quick" else 400000):
             c = rng.randrange(100000)
             if c == 9999:
                 continue
